@@ -1,0 +1,184 @@
+//go:build verif
+
+package server
+
+import (
+	"encoding/json"
+	"fmt"
+	"strings"
+
+	"github.com/resgateio/resgate/server/codec"
+	"github.com/resgateio/resgate/server/rescache"
+	"github.com/resgateio/resgate/server/reserr"
+)
+
+// VerifSub drives one real Subscription (a resource without references) on a real, socket-less wsConn: the
+// connection's counters and collector (addCount, UnsubscribeByRID, removeCount, tryDelete) and the subscription's access,
+// queueing, re-access and disposal logic run unchanged; only what leaves the connection is replaced by records -
+// frames (Send), access requests (Access), queued tasks (Enqueue, run by Drain) and log lines.
+type VerifSub struct {
+	c    *verifConn
+	sub  *Subscription
+	rs   *rescache.ResourceSubscription
+	Out  []string // observations of the current operation
+	accs []func(*rescache.Access)
+}
+
+type verifConn struct {
+	*wsConn
+	v     *VerifSub
+	queue []func()
+}
+
+func (c *verifConn) Logf(format string, v ...interface{})   {}
+func (c *verifConn) Debugf(format string, v ...interface{}) {}
+func (c *verifConn) Errorf(format string, v ...interface{}) { c.v.Out = append(c.v.Out, "LOGERR") }
+func (c *verifConn) Send(data []byte) {
+	var f struct {
+		Event string `json:"event"`
+		Data  struct {
+			Seq    *int `json:"seq"`
+			Reason *struct {
+				Code string `json:"code"`
+			} `json:"reason"`
+		} `json:"data"`
+	}
+	json.Unmarshal(data, &f)
+	switch {
+	case strings.HasSuffix(f.Event, ".unsubscribe") && f.Data.Reason != nil:
+		c.v.Out = append(c.v.Out, "F:unsub:"+f.Data.Reason.Code)
+	case strings.HasSuffix(f.Event, ".delete"):
+		c.v.Out = append(c.v.Out, "F:delete")
+	case f.Data.Seq != nil:
+		c.v.Out = append(c.v.Out, fmt.Sprintf("F:custom%d", *f.Data.Seq))
+	default:
+		c.v.Out = append(c.v.Out, "F:?")
+	}
+}
+func (c *verifConn) Enqueue(f func()) bool {
+	if c.wsConn.disposing {
+		return false
+	}
+	c.queue = append(c.queue, f)
+	return true
+}
+func (c *verifConn) Access(s *Subscription, cb func(*rescache.Access)) {
+	c.v.Out = append(c.v.Out, "A")
+	c.v.accs = append(c.v.accs, cb)
+}
+func (c *verifConn) Unsubscribe(sub *Subscription, direct bool, sent bool, count int, tryDelete bool) {
+	c.wsConn.Unsubscribe(sub, direct, sent, count, tryDelete)
+}
+
+// NewVerifSub creates the connection and a directly subscribed (count 1), still loading subscription.
+func NewVerifSub() *VerifSub {
+	v := &VerifSub{}
+	v.c = &verifConn{wsConn: &wsConn{cid: "verif", subs: map[string]*Subscription{}, protocolVer: versionLatest}, v: v}
+	v.rs = rescache.NewVerifDummyRS("test.model")
+	v.sub = NewSubscription(v.c, "test.model", nil)
+	v.c.addCount(v.sub, true)
+	v.c.subs["test.model"] = v.sub
+	return v
+}
+
+func (v *VerifSub) drain() {
+	for len(v.c.queue) > 0 {
+		f := v.c.queue[0]
+		v.c.queue = v.c.queue[1:]
+		f()
+	}
+}
+
+func verdict(err error) string {
+	if err == nil {
+		return "ok"
+	}
+	return reserr.RESError(err).Code
+}
+
+// Do carries out one operation and returns what was observed, followed by a state summary.
+//
+//	get:<k>  call:<k>   register a CanGet / CanCall("set") continuation k
+//	ready:<k>           OnReady continuation k
+//	loaded              the cache hands over the loaded resource
+//	resources / release GetRPCResources(false) / ReleaseRPCResources
+//	custom:<n> / delete a resource event reaches the subscription
+//	reaccess            a re-access trigger (Subscription.Reaccess)
+//	answer:<a>          the oldest outstanding access request is answered: grant, grantnocall, deny (get:false),
+//	                    denied (system.accessDenied error), error (system.internalError)
+//	add                 one more direct subscription (wsConn.addCount)
+//	unsub:<n>           the client's unsubscribe request with that count (wsConn.UnsubscribeByRID)
+func (v *VerifSub) Do(op string) string {
+	v.Out = nil
+	name, arg := op, ""
+	if i := strings.IndexByte(op, ':'); i >= 0 {
+		name, arg = op[:i], op[i+1:]
+	}
+	s := v.sub
+	before := rescache.VerifQueueLen(v.rs)
+	switch name {
+	case "get":
+		s.CanGet(func(err error) { v.Out = append(v.Out, "K"+arg+":"+verdict(err)) })
+	case "call":
+		s.CanCall("set", func(err error) { v.Out = append(v.Out, "K"+arg+":"+verdict(err)) })
+	case "ready":
+		s.OnReady(func() { v.Out = append(v.Out, "R"+arg) })
+	case "loaded":
+		s.Loaded(v.rs, nil)
+	case "resources":
+		s.GetRPCResources(false)
+	case "release":
+		s.ReleaseRPCResources()
+	case "custom":
+		s.Event(&rescache.ResourceEvent{Event: "custom", Payload: json.RawMessage(`{"seq":` + arg + `}`), Version: s.version})
+	case "delete":
+		s.Event(&rescache.ResourceEvent{Event: "delete", Version: s.version})
+	case "reaccess":
+		s.Reaccess(nil)
+	case "answer":
+		if len(v.accs) == 0 {
+			break
+		}
+		cb := v.accs[0]
+		v.accs = v.accs[1:]
+		var a *rescache.Access
+		switch arg {
+		case "grant":
+			a = &rescache.Access{AccessResult: &codec.AccessResult{Get: true, Call: "*"}}
+		case "grantnocall":
+			a = &rescache.Access{AccessResult: &codec.AccessResult{Get: true, Call: ""}}
+		case "deny":
+			a = &rescache.Access{AccessResult: &codec.AccessResult{Get: false, Call: "set"}}
+		case "denied":
+			a = &rescache.Access{Error: reserr.ErrAccessDenied}
+		default:
+			a = &rescache.Access{Error: reserr.ErrInternalError}
+		}
+		cb(a)
+	case "add":
+		if cur, ok := v.c.subs["test.model"]; ok && cur == s {
+			if v.c.addCount(s, true) != nil {
+				v.Out = append(v.Out, "LIMIT")
+			}
+		}
+	case "unsub":
+		n := 1
+		fmt.Sscanf(arg, "%d", &n)
+		if v.c.UnsubscribeByRID("test.model", n) {
+			v.Out = append(v.Out, "UOK")
+		} else {
+			v.Out = append(v.Out, "UFAIL")
+		}
+	}
+	v.drain()
+	if rescache.VerifQueueLen(v.rs) > before {
+		v.Out = append(v.Out, "U")
+	}
+	acc := "-"
+	if s.access != nil {
+		acc = verdict(s.access.CanGet())
+	}
+	_, reg := v.c.subs["test.model"]
+	return strings.Join(v.Out, ",") + fmt.Sprintf(" st=%d q=%d f=%d d=%d eq=%d acc=%s acb=%d rcb=%d rs=%t reg=%t out=%d",
+		s.state, s.queueFlag, s.flags, s.direct, len(s.eventQueue), acc, len(s.accessCallbacks), len(s.readyCallbacks), s.resourceSub != nil, reg && v.c.subs["test.model"] == s, len(v.accs))
+}
